@@ -4,8 +4,8 @@ CONSTANTS
   ClassifyWholeText = TRUE
   GuardEveryROStmt = TRUE
   LocalReadsOnROPool = TRUE
-  StrongQueryOnROPool = FALSE
+  StrongQueryOnROPool = TRUE
   Nodes = {n1, n2, n3}
   SeqClasses = {"select", "write", "ro-head-rw-tail", "explain-write", "explain-ro-head-rw-tail", "pragma-optimize", "insert-returning"}
-  MaxLen = 3
-INVARIANT OnlyThroughLog
+  MaxLen = 4
+INVARIANTS TypeOK NoChangeByRead OnlyThroughLog EveryNode
